@@ -4,6 +4,7 @@ import itertools
 import gens
 import impl
 import engine
+import exchange as X
 from docs import to_text, ro_delete, story_append, ready_to_air, ro_replace
 from checks.base import corpus_cases
 from checks.c08 import run_sub, smoke
@@ -200,6 +201,19 @@ class Check:
                             how = 'without allow_incomplete' if inc is None else 'with allow_incomplete=%s' % inc
                             vio.append({'what': '%s %s: a collection %s roDelete is %s, expected %s' % (name, how, 'with its' if complete else 'without a', got, want),
                                         'case': {'kind': 'default-route', 'route': name, 'docs': docs_, 'inc': inc}, 'impl': got, 'expected': want})
+            # a roCreate document that is itself a completed running order (written out after an earlier merge) is still
+            # one roCreate and no roDelete
+            done_t = X.tree_to_string(impl.run_add(ro_t, rd_t)['tree'])
+            for docs_, inc, want in (([done_t, ap_t], False, 'InvalidMosCollection'), ([done_t, ap_t], True, 'accepted'),
+                                     ([done_t, ap_t, rd_t], False, 'accepted'), ([done_t, rd_t, rd_t], True, 'InvalidMosCollection')):
+                for how in ('strings', 'files', 's3'):
+                    io = impl.run_coll(docs_, inc, False, how=how, tmpdir=tmp)
+                    got = io.get('err0') or 'accepted'
+                    n += 1
+                    sigs.add(('completed-rc', len(docs_), inc, how, got))
+                    if got != want:
+                        vio.append({'what': 'from_%s over a completed roCreate document and %d other messages (allow_incomplete=%s): %s, expected %s' % (how, len(docs_) - 1, inc, got, want),
+                                    'case': {'kind': 'twice', 'docs': docs_, 'how': how, 'inc': inc, 'want': want}, 'impl': got, 'expected': want})
             # the very same document supplied twice is two messages, whichever way the collection is built (for from_files:
             # one path listed twice, the second time in another spelling)
             for label, docs_ in (('the roCreate twice', [ro_t, ap_t, rd_t, ro_t]), ('the roDelete twice', [ro_t, ap_t, rd_t, rd_t]),
@@ -235,9 +249,11 @@ class Check:
             import shutil
             tmp = tempfile.mkdtemp(prefix='mosverif-c11-')
             try:
-                io = impl.run_coll(case['docs'], False, False, how=case['how'], tmpdir=tmp)
+                io = impl.run_coll(case['docs'], bool(case.get('inc')), False, how=case['how'], tmpdir=tmp)
             finally:
                 shutil.rmtree(tmp, ignore_errors=True)
+            if case.get('want'):
+                return {'violation': (io.get('err0') or 'accepted') != case['want'], 'impl': io.get('err0') or 'accepted'}
             want_reject = case['docs'].count(case['docs'][0]) > 1 or len(case['docs']) != len(set(case['docs'])) and case['docs'][-1] == case['docs'][2]
             return {'violation': (io.get('err0') == 'InvalidMosCollection') != bool(want_reject), 'impl': io.get('err0') or 'accepted'}
         if case.get('kind') == 'default-route':
